@@ -14,9 +14,11 @@ Kinds == {"ifT", "ifElseT", "ifElseE", "elif1", "elif2", "while", "fromTo", "fro
           "fromEmpty",
           \* loops whose start / end / step are variables that the body reassigns: start and end are read once
           \* on entry, the step on every iteration
-          "fromVars", "fromThruVar"}
+          "fromVars", "fromThruVar",
+          \* conditions that are read out of a list element (what reaches if_stmt / while_loop is a view of the slot)
+          "ifSlot", "whileSlot"}
 Terms == {"fall", "break", "continue", "ret", "assert", "div0", "oob"}
-LoopKinds == {"while", "fromTo", "fromThru", "fromStep", "fromAnon", "fromColl", "whileX", "fromToX", "fromStepX", "fromEmpty", "fromVars", "fromThruVar"}
+LoopKinds == {"while", "fromTo", "fromThru", "fromStep", "fromAnon", "fromColl", "whileX", "fromToX", "fromStepX", "fromEmpty", "fromVars", "fromThruVar", "whileSlot"}
 
 VARIABLES path, term, pad, done
 vars == <<path, term, pad, done>>
@@ -28,7 +30,7 @@ Name(p, d) == p \o ToString(d)
 Ctx0 == [lv |-> "", inloop |-> FALSE, infn |-> FALSE]
 Enter(ctx, k, d) ==
     CASE k = "fn" -> [lv |-> "", inloop |-> FALSE, infn |-> TRUE]
-      [] k \in {"while", "whileX"} -> [ctx EXCEPT !.lv = Name("w", d), !.inloop = TRUE]
+      [] k \in {"while", "whileX", "whileSlot"} -> [ctx EXCEPT !.lv = Name("w", d), !.inloop = TRUE]
       [] k \in {"fromTo", "fromThru", "fromStep", "fromColl", "fromToX", "fromStepX", "fromVars", "fromThruVar"} -> [ctx EXCEPT !.lv = Name("i", d), !.inloop = TRUE]
       [] k \in {"fromAnon", "fromEmpty"} -> [ctx EXCEPT !.inloop = TRUE]
       [] OTHER -> ctx
@@ -80,6 +82,11 @@ Build(p, d, t, ctx, padded) ==
       [] k = "fromStep" -> <<From(I(-1), I(4), FALSE, <<I(2)>>, Name("i", d), body)>> \o after
       [] k = "fromAnon" -> <<From(I(0), I(2), FALSE, <<>>, "", body)>> \o after
       [] k = "fromEmpty" -> <<From(I(5), I(5), FALSE, <<>>, "", body)>> \o after
+      [] k = "ifSlot" -> <<LetT(Name("fl", d), "[bool...]", List(<<Eq(ctx, 1), B(FALSE)>>)), Let(Name("k", d), I(0)),
+                           If(Idx(V(Name("fl", d)), V(Name("k", d))), body)>> \o after
+      [] k = "whileSlot" -> <<LetT(Name("fl", d), "[bool...]", List(<<B(TRUE), B(TRUE), B(TRUE), B(FALSE)>>)), Let(Name("w", d), I(-1)),
+                              While(Idx(V(Name("fl", d)), Bin("+", V(Name("w", d)), I(1))),
+                                    <<Let(Name("w", d), Bin("+", V(Name("w", d)), I(1)))>> \o body)>> \o after
       [] k = "fromVars" -> <<Let(Name("lo", d), I(0)), Let(Name("hi", d), I(4)), Let(Name("st", d), I(1)),
                              From(V(Name("lo", d)), V(Name("hi", d)), FALSE, <<V(Name("st", d))>>, Name("i", d),
                                   <<Let(Name("lo", d), I(2)), Let(Name("hi", d), I(2)), Let(Name("st", d), I(2))>> \o body),
